@@ -86,10 +86,18 @@ def s_same(draw):
     Hd, Wd = draw(st.integers(1, 40)), draw(st.integers(1, 40))
     ttol = draw(st.sampled_from([TTOL, TTOL, 0.01, 0.2]))
     stol = draw(st.sampled_from([STOL, STOL, 1e-2, 1e-5]))
-    klass = draw(st.sampled_from(["shift_int", "shift_sub", "scale_int", "scale_near", "scale_frac", "rot90", "rot"]))
-    if klass in ("rot90", "rot"):
+    klass = draw(st.sampled_from(["shift_int", "shift_sub", "scale_int", "scale_near", "scale_frac", "rot90", "rot", "rot_tiny"]))
+    if klass == "rot_tiny":
+        # scene-sized rasters turned against each other by a fraction of a milliradian (two acquisitions registered
+        # independently): invisible over 40 pixels, more than a pixel over a thousand
+        Hs, Ws = draw(st.integers(800, 3000)), draw(st.integers(800, 3000))
+        Hd, Wd = draw(st.integers(800, 3000)), draw(st.integers(800, 3000))
+    if klass in ("rot90", "rot", "rot_tiny"):
         ang = draw(st.sampled_from([90.0, 180.0, 270.0])) if klass == "rot90" else draw(st.one_of(st.sampled_from([1.0, 10.0, 45.0, 30.0, -60.0]), st.floats(0.5, 359.5)))
         sc = draw(st.sampled_from([1.0, 1.0, 2.0, 0.5, 1.3]))
+        if klass == "rot_tiny":
+            ang = math.degrees(draw(st.sampled_from([3e-4, 6e-4, 9e-4, -5e-4, -8e-4, 2e-3, 5e-5])))
+            sc = 1.0
         c, s_ = math.cos(math.radians(ang)), math.sin(math.radians(ang))
         if klass == "rot90":
             c, s_ = float(round(c)), float(round(s_))
@@ -101,6 +109,8 @@ def s_same(draw):
         a, b, d, e = c * sc, -s_ * sc, s_ * sc, c * sc
         tx = cx - (a * Wd / 2 + b * Hd / 2)
         ty = cy - (d * Wd / 2 + e * Hd / 2)
+        if klass == "rot_tiny":
+            tx, ty = float(round(tx)), float(round(ty))  # a whole-pixel offset on top of the tiny rotation
         Tm = [a, b, tx, d, e, ty]
         places = ["rot", "rot"]
         mirrors = [False, False]
@@ -165,8 +175,16 @@ def check_plan(info, src, dst, srcmap, T, opts, linear, M=None):
     require(0 <= sy0 <= sy1 <= up(Hs) and 0 <= sx0 <= sx1 <= up(Ws), "roi_src %r outside source image %r (read_shrink %d)", info.roi_src, (Hs, Ws), rs)
     n_in = n_out = 0
     margin = 1e-6
-    for j in range(Hd):
-        for i in range(Wd):
+
+    def _lattice(n):
+        # every pixel for images up to 64 px a side; beyond that the first/last 3 rows plus 58 evenly spaced ones
+        if n <= 64:
+            return range(n)
+        return sorted({0, 1, 2, n - 3, n - 2, n - 1, *(round(k * (n - 1) / 57) for k in range(58))})
+
+    rows, cols = _lattice(Hd), _lattice(Wd)
+    for j in rows:
+        for i in cols:
             p = srcmap(i, j)
             if p is None:
                 n_out += 1
